@@ -3,6 +3,7 @@ package connx
 import (
 	"context"
 	"fmt"
+	"runtime"
 	"sync"
 	"time"
 
@@ -83,6 +84,7 @@ type srcCtl struct {
 	acked   []int // acked so far (for the re-ack misbehaviour)
 	nacks   int   // number of Ack calls issued
 	busy    chan struct{}
+	reading *pendingRead
 	tdStarted bool
 	tdDone    chan struct{}
 }
@@ -100,7 +102,8 @@ type World struct {
 	tfn    func()
 	tarmed bool
 
-	ops  []chan struct{} // operations still running in the background
+	tdBudget time.Duration
+	ops      []chan struct{} // operations still running in the background
 	Hang bool
 }
 
@@ -150,10 +153,11 @@ func NewWorld(in Input) (*World, error) {
 		fetch[pluginName+ids[i]] = dispenser{src: plug}
 		w.srcs = append(w.srcs, &srcCtl{id: ids[i], inst: inst, plug: plug, nextRec: in.Inits[i] + 1})
 	}
-	td := 1500 * time.Millisecond
+	td := 400 * time.Millisecond
 	if in.TdShort {
 		td = 12 * time.Millisecond
 	}
+	w.tdBudget = td
 	for si, sc := range w.srcs {
 		c, err := sc.inst.Connector(ctx, fetch)
 		if err != nil {
@@ -214,7 +218,7 @@ func (w *World) await(done <-chan struct{}, limit time.Duration) bool {
 			return true
 		default:
 		}
-		time.Sleep(40 * time.Microsecond)
+		pause(20 * time.Microsecond)
 		now := time.Now()
 		if w.DB.InFlight() > 0 && w.DB.Parked() > 0 {
 			if blockedSince.IsZero() {
@@ -238,11 +242,19 @@ func (w *World) await(done <-chan struct{}, limit time.Duration) bool {
 	}
 }
 
+// pause yields the processor for about d (time.Sleep is far too coarse here).
+func pause(d time.Duration) {
+	t0 := time.Now()
+	for time.Since(t0) < d {
+		runtime.Gosched()
+	}
+}
+
 // settle waits until the log has stopped growing for a moment.
 func (w *World) settle() {
 	last, stable := w.Log.Len(), 0
-	for i := 0; i < 60 && stable < 6; i++ {
-		time.Sleep(50 * time.Microsecond)
+	for i := 0; i < 100 && stable < 8; i++ {
+		pause(25 * time.Microsecond)
 		if n := w.Log.Len(); n != last {
 			last, stable = n, 0
 		} else {
@@ -262,9 +274,10 @@ func (w *World) rec(r int) opencdc.Record {
 }
 
 func (w *World) read(s, k int) {
+	w.reap(s)
 	sc := w.srcs[s]
-	if sc.tdStarted || k <= 0 {
-		return
+	if sc.tdStarted || k <= 0 || w.isBusy(sc) {
+		return // (an Ack blocked behind the store holds the instance lock Read needs)
 	}
 	recs := make([]opencdc.Record, k)
 	ids := make([]int, k)
@@ -274,36 +287,57 @@ func (w *World) read(s, k int) {
 		sc.nextRec++
 	}
 	sc.plug.Produce(recs)
-	ctx, cancel := context.WithTimeout(context.Background(), 5*time.Second)
-	defer cancel()
-	got, err := sc.src.Read(ctx)
-	if err != nil || len(got) != k {
-		w.Log.Add(Event{K: "ackerr", Note: fmt.Sprint("read: ", err, len(got))})
+	// Read takes no lock that the unchanged code holds across a store write; it still runs
+	// in the background so that a change which makes it block cannot hang the harness
+	pr := &pendingRead{ids: ids}
+	pr.done = w.background(func() { pr.got, pr.err = sc.src.Read(context.Background()) })
+	sc.reading = pr
+	sc.busy = pr.done // nothing more happens on this source until the read has returned
+	w.reap(s)
+}
+
+type pendingRead struct {
+	done chan struct{}
+	ids  []int
+	got  []opencdc.Record
+	err  error
+}
+
+// reap books a Source.Read that has returned: the records count as read from here on.
+func (w *World) reap(s int) {
+	sc := w.srcs[s]
+	pr := sc.reading
+	if pr == nil {
+		return
+	}
+	select {
+	case <-pr.done:
+	default:
+		return
+	}
+	sc.reading = nil
+	if pr.err != nil || len(pr.got) != len(pr.ids) {
+		w.Log.Add(Event{K: "ackerr", S: s, Note: fmt.Sprint("read: ", pr.err, len(pr.got))})
 		return
 	}
 	w.Log.With(func(app func(Event)) {
-		for _, id := range ids {
+		for _, id := range pr.ids {
 			app(Event{K: "read", S: s, N: id})
 		}
 	})
-	sc.unacked = append(sc.unacked, ids...)
+	sc.unacked = append(sc.unacked, pr.ids...)
 }
 
 func (w *World) ack(s, k, mal int) {
+	w.reap(s)
 	sc := w.srcs[s]
-	if sc.tdDone != nil {
-		select {
-		case <-sc.tdDone:
-			return // torn down: the engine has nothing to ack to
-		default:
-		}
+	if sc.tdStarted {
+		// both engines stop acking a source before they tear it down (an Ack that loses the race
+		// against plugin := nil returns ErrPluginNotRunning without touching any state)
+		return
 	}
-	if sc.busy != nil {
-		select {
-		case <-sc.busy:
-		default:
-			return // the engine acks one call at a time per source
-		}
+	if w.isBusy(sc) {
+		return // the engine acks one call at a time per source
 	}
 	if k < 1 {
 		k = 1
@@ -365,16 +399,31 @@ func (w *World) ack(s, k, mal int) {
 	})
 }
 
+func (w *World) isBusy(sc *srcCtl) bool {
+	if sc.busy == nil {
+		return false
+	}
+	select {
+	case <-sc.busy:
+		return false
+	default:
+		return true
+	}
+}
+
 func (w *World) teardown(s int) {
+	w.reap(s)
 	sc := w.srcs[s]
-	if sc.tdStarted {
-		return
+	if sc.tdStarted || w.isBusy(sc) {
+		return // (both engines stop acking a source before they tear it down)
 	}
 	sc.tdStarted = true
 	w.Log.Add(Event{K: "tdbegin", S: s})
 	sc.tdDone = w.background(func() {
+		t0 := time.Now()
 		_ = sc.src.Teardown(context.Background())
-		w.Log.Add(Event{K: "tdend", S: s})
+		// Ok = fast: none of Teardown's bounded waits can have timed out
+		w.Log.Add(Event{K: "tdend", S: s, Ok: time.Since(t0) < w.tdBudget/2})
 	})
 }
 
@@ -447,7 +496,7 @@ func (w *World) Finish() []Event {
 		if !pendingOps() && w.DB.InFlight() == 0 {
 			break
 		}
-		time.Sleep(50 * time.Microsecond)
+		pause(30 * time.Microsecond)
 	}
 	w.settle()
 	for s := range w.srcs {
@@ -460,7 +509,7 @@ func (w *World) Finish() []Event {
 		if !pendingOps() && w.DB.InFlight() == 0 {
 			break
 		}
-		time.Sleep(50 * time.Microsecond)
+		pause(30 * time.Microsecond)
 	}
 	if pendingOps() {
 		w.Log.Add(Event{K: "hang"})
@@ -517,7 +566,7 @@ func Restart(in Input, snap StoreSnap) ([]Robs, error) {
 		}
 		opened, tag, pos := plug.OpenedAt()
 		if !opened {
-			tag, pos = 9999, 0
+			tag, pos = 4095, 0
 		}
 		out = append(out, Robs{At: snap.At, S: i, Tag: tag, Pos: pos})
 		_ = src.Teardown(ctx)
